@@ -341,6 +341,21 @@ func (a *Analyzer) CheckRule(clause ast.Clause) error {
 		}
 	}
 	if hasLetTransform(clause) {
+		// Statements are evaluated in order: a variable defined by the transform
+		// can only be used by the statements after its definition.
+		defined := make(map[ast.Variable]bool)
+		for _, stmt := range clause.Transform.Statements {
+			uses := make(map[ast.Variable]bool)
+			ast.AddVars(stmt.Fn, uses)
+			for v := range uses {
+				if transformVarDefs[v] && !defined[v] {
+					return fmt.Errorf("variable %v is used in %v before the transform defines it %v", v, stmt.Fn, clause)
+				}
+			}
+			if stmt.Var != nil {
+				defined[*stmt.Var] = true
+			}
+		}
 		for _, stmt := range clause.Transform.Statements[1:] {
 			if stmt.Var == nil {
 				return fmt.Errorf("all statements in a let transform have to be let-statements %v", clause)
